@@ -49,6 +49,8 @@ def iv_binop(op, a, b, bits):
             return Iv(a.lo // b.hi, a.hi // b.lo, bits)
         return Iv.top(bits)
     if op == "urem":
+        if b.lo > 0 and a.lo == a.hi and b.lo == b.hi:
+            return Iv(a.lo % b.lo, a.lo % b.lo, bits)
         if b.lo > 0:
             return Iv(0, min(a.hi, b.hi - 1), bits)
         return Iv.top(bits)
@@ -132,7 +134,11 @@ def explore_intervals(f, start_env, on_store=None, max_states=5000):
             if v[0] == "n":
                 return Iv(0, 0, 64)
             if v in env:
-                return env[v]
+                e_ = env[v]
+                if isinstance(e_, bool) or e_ is None:
+                    # the result of a comparison used as a number (zext of (x % 32 != 0)): 0 or 1
+                    return Iv(int(e_), int(e_), bits or 1) if isinstance(e_, bool) else Iv(0, 1, bits or 1)
+                return e_
             I = f.inst(v)
             bb = bits or (I.bits if I is not None and I.bits else None)
             if bb is None and v[0] == "a":
@@ -156,6 +162,10 @@ def explore_intervals(f, start_env, on_store=None, max_states=5000):
             elif I.op == "zext":
                 a = getiv(I.ops[0], I.get("src_bits"))
                 env[k] = Iv(a.lo, a.hi, I.bits)
+            elif I.op == "sext":
+                a = getiv(I.ops[0], I.get("src_bits"))
+                sb = I.get("src_bits") or a.bits or 64
+                env[k] = Iv(a.lo, a.hi, I.bits) if a.hi < (1 << (sb - 1)) else Iv.top(I.bits)
             elif I.op == "trunc":
                 a = getiv(I.ops[0], I.get("src_bits"))
                 env[k] = Iv(a.lo, a.hi, I.bits) if a.hi <= mask(I.bits) else Iv.top(I.bits)
